@@ -36,6 +36,10 @@ pub enum OpKind {
     AssembledVariable,
     /// the same with fixed-blocking headers (identical specifier bits, the other blocking strategy)
     AssembledFixed,
+    /// frame-level encode; then the header of the first frame (also with a start-sample number the writer must refuse)
+    /// and each of its subframes are written alone into a user sink that fails at its k-th operation; then the stream
+    /// is written into a `ByteSink`. Observable: the bits every failing sink accepted, the errors, the stream bytes
+    FailingComponentWrites,
 }
 
 #[derive(Clone, Debug, PartialEq, Serialize, Deserialize)]
@@ -132,6 +136,42 @@ fn exec_inner(op: &Op) -> Result<Vec<u8>, String> {
                 Err(flacenc::error::OutputError::Sink(_)) => 1,
                 Err(_) => 2,
             });
+        }
+        OpKind::FailingComponentWrites => {
+            use flacenc::component::FrameOffset;
+            let (s, frames) = enc::encode_by_frames(&v, &samples, ch, bps, rate, block, op.src)?;
+            if s.count_bits() > limit {
+                return Err("oversized".into());
+            }
+            if let Some(f) = frames.first() {
+                let mut k = op.inp.seed as usize;
+                let mut fail_write = |c: &dyn Fn(&mut crate::oracle::bits::MinimalSink) -> u8, out: &mut Vec<u8>| {
+                    let mut probe = crate::oracle::bits::MinimalSink::new();
+                    let _ = c(&mut probe);
+                    let total = probe.ops.max(1);
+                    k = k.wrapping_mul(31).wrapping_add(7);
+                    let mut sink = crate::oracle::bits::MinimalSink::failing_at(k % total);
+                    let r = c(&mut sink);
+                    out.extend_from_slice(&sink.model.to_bytes());
+                    out.extend_from_slice(&(sink.model.len() as u32).to_le_bytes());
+                    out.push(r);
+                };
+                let code = |r: Result<(), flacenc::error::OutputError<crate::oracle::bits::MinimalSink>>| match r {
+                    Ok(()) => 0u8,
+                    Err(flacenc::error::OutputError::Sink(_)) => 1,
+                    Err(_) => 2,
+                };
+                fail_write(&|snk| code(f.header().write(snk)), &mut out);
+                let mut h2 = f.header().clone();
+                h2.set_frame_offset(FrameOffset::StartSample(1u64 << 36));
+                fail_write(&|snk| code(h2.write(snk)), &mut out);
+                for c in 0..f.subframe_count() {
+                    let sf = f.subframe(c).unwrap();
+                    fail_write(&|snk| code(sf.write(snk)), &mut out);
+                }
+                fail_write(&|snk| code(f.write(snk)), &mut out);
+            }
+            out.extend_from_slice(&enc::stream_bytes(&s, limit)?);
         }
         OpKind::AssembledVariable | OpKind::AssembledFixed => {
             let variable = op.kind == OpKind::AssembledVariable;
@@ -272,7 +312,7 @@ pub fn alpha_pool() -> Vec<u32> {
 }
 
 fn op_strategy(blocks: Vec<usize>, budget: usize) -> BoxedStrategy<Op> {
-    let kind = prop_oneof![5 => Just(OpKind::Stream), 3 => Just(OpKind::Frames), 2 => Just(OpKind::Precomputed), 2 => Just(OpKind::ParseBack), 1 => Just(OpKind::Multi), 3 => Just(OpKind::FailingWrite), 2 => Just(OpKind::AssembledVariable), 1 => Just(OpKind::AssembledFixed)];
+    let kind = prop_oneof![5 => Just(OpKind::Stream), 3 => Just(OpKind::Frames), 2 => Just(OpKind::Precomputed), 2 => Just(OpKind::ParseBack), 1 => Just(OpKind::Multi), 3 => Just(OpKind::FailingWrite), 2 => Just(OpKind::FailingComponentWrites), 2 => Just(OpKind::AssembledVariable), 1 => Just(OpKind::AssembledFixed)];
     let window = prop_oneof![1 => Just(None), 5 => proptest::sample::select(alpha_pool()).prop_map(Some), 1 => gen::alpha_bits_strategy().prop_map(Some)];
     (proptest::sample::select(blocks), gen::cfg_strategy(CfgOpts { max_block: 4608, ..Default::default() }), kind, window, src_strategy(), any::<bool>())
         .prop_flat_map(move |(block, mut cfg, kind, window, src, force_lpc)| {
@@ -361,7 +401,7 @@ pub fn same_product_strategy() -> BoxedStrategy<History> {
 
 pub fn run(ctx: &Ctx) {
     ctx.rule(
-        "histories = vec(op, 2..=7) executed on one long-lived thread, op in {stream encode+write, frame-level encode + per-frame write to MemSink<u64>, precompute_bitstream + write to MemSink<u64>, encode+write+parse+decode+re-serialise, multi-thread encode, write into a failing user sink, hand-assembled streams with variable-blocking or fixed-blocking headers built through Frame::into_parts / FrameHeader::new / Frame::new} with generated valid (config, input); \
+        "histories = vec(op, 2..=7) executed on one long-lived thread, op in {stream encode+write, frame-level encode + per-frame write to MemSink<u64>, precompute_bitstream + write to MemSink<u64>, encode+write+parse+decode+re-serialise, multi-thread encode, write into a failing user sink, writes of a frame header (also one the writer must refuse) / of each subframe / of a frame alone into failing user sinks followed by a stream write, hand-assembled streams with variable-blocking or fixed-blocking headers built through Frame::into_parts / FrameHeader::new / Frame::new} with generated valid (config, input); \
          block sizes come from a per-history pool of 1..=3 sizes (32..=2304) so that steps change channels (1..=8), widths (8..=24), LPC order, Rice limits and window parameters at a fixed buffer size as well as shrinking/growing the buffers; window parameters from a pool with near-collisions (0, 1e-6, subnormal, 0.4, 0.4+1ulp, 0.4+0.6/65535, 1-ulp, 1, ...); \
          oracle: the observable bytes of every op equal those of the same op executed alone on a freshly spawned thread; second family: pairs of ops that differ only in the window parameter; third: 2-3 ops on the same (config, input) that differ only in how the stream is produced (stream-level, frame-level, precomputed, variable-blocking or fixed-blocking re-headed frames: same specifier bits, other blocking strategy); fourth: pairs whose buffers have the same total size channels x block size but another shape; \
          evaluations = ops executed inside histories; non-trivial = history with >= 2 ops whose (block size, channels, width, window) differ; distinct by hash of the history",
